@@ -587,10 +587,11 @@ def sample_cases(ctx, spec, iface, cell, reuse=None):
     rate_obs = 1.0 / scale_obs
     v2 = float(sum((a - c) ** 2 for a, c in zip(Ax, b)))
     has_density = not fam.startswith("reg")
-    if has_density:
-        orc = oracle_sample(target, spec, shape_obs, rate_obs)
-    else:
-        orc = oracle_regularized(spec, shape_obs, rate_obs, n, m_code)
+    with cfg(spec):      # the library options of the cell also hold while the target's logd is evaluated
+        if has_density:
+            orc = oracle_sample(target, spec, shape_obs, rate_obs)
+        else:
+            orc = oracle_regularized(spec, shape_obs, rate_obs, n, m_code)
     # --- shape
     fail, sig = None, ""
     if not ok_val:
@@ -631,7 +632,7 @@ def sample_cases(ctx, spec, iface, cell, reuse=None):
         form = "lik_gauss_homog %s 0 %s %s %s" % (cnat(n), crmat(L), crvec(Ax), crvec(b))
     if form:
         s1, s2 = ctx.rng.choice([(2, 1), (4, 1), (3, 2), (Fraction(1, 2), 2), (4, Fraction(1, 2))])
-        with QUIET:
+        with QUIET, cfg(spec):
             l1 = float(np.ravel(np.asarray(target.likelihood.logd(np.array([float(s1)])), dtype=float))[0])
             l2 = float(np.ravel(np.asarray(target.likelihood.logd(np.array([float(s2)])), dtype=float))[0])
         if math.isfinite(l1) and math.isfinite(l2):
@@ -1073,6 +1074,10 @@ def validation_case(ctx, spec, iface, cell):
         if accepted and real_dim != 1:
             fail = nonscalar_oracle(target, spec, iface, sampler)
             sig = "%s|nonscalar-gamma-accepted" % site(iface)
+    # property oracle: the regularized pairs are supported with nonnegativity constraints only
+    if fail is None and accepted and spec["family"].startswith("reg") and spec.get("preset", "nonnegativity") != "nonnegativity":
+        fail = "a regularized Gaussian with preset %r was accepted (only 'nonnegativity' is a supported conjugate structure)" % spec.get("preset")
+        sig = "%s|unsupported-preset-accepted" % site(iface)
     # property oracle: accepted => the draw must be from a Gamma proportional to the target
     if fail is None and accepted and spec["prior"].get("dim", 1) == 1 and iface in ("exp", "legacy") and spec["family"] in ("gaussian", "gmrf") and spec["prior"]["kind"] == "gamma":
         try:
@@ -1235,7 +1240,11 @@ def approx_cases(ctx):
         for rep in range(ctx.n(6, 40)):
             n = rng.randint(2, 7)
             x = [dy(rng, -4, 4, 4) for _ in range(n)]
-            alpha, beta = rng.choice([Fraction(1), Fraction(3, 2), Fraction(1, 4)]), rng.choice([Fraction(1, 2), Fraction(1, 1024), Fraction(3)])
+            if rep == 1:
+                x[rng.randrange(n)] = Fraction(0)          # falsy-but-legitimate: a zero entry
+            if rep == 4:
+                x = [Fraction(0)] * n                      # ... and an all-zero state (the usual initial point)
+            alpha, beta = rng.choice([Fraction(1), Fraction(3, 2), Fraction(1, 4), Fraction(25, 2)]), rng.choice([Fraction(1, 2), Fraction(1, 1024), Fraction(3), Fraction(40)])
             bc = rng.choice(["zero", "periodic", "neumann"])
             # location: scalar 0 (documented requirement), a zero vector, or -- every third case -- a NON-zero vector whose entries sum to 0
             lockind = ["scalar0", "zerovec", "sumzero"][rep % 3] if n >= 3 else "scalar0"
@@ -1512,6 +1521,12 @@ def classify(meta, detail):
 
 
 def oracle(ctx, meta):
+    m = meta.get("meta", meta)
+    with cfg(m.get("spec") or {}):
+        return _oracle(ctx, meta)
+
+
+def _oracle(ctx, meta):
     """re-check the property itself for one case (used when the model and the implementation disagree)"""
     m = meta.get("meta", meta)
     if m.get("op") == "sample":
